@@ -146,6 +146,10 @@ func init() {
 	p("vPermuteMaps", func(fr *frame, a []value) value { fr.i.ps.permute = a[0].(bool); return nil })
 	p("vPoolChoice", func(fr *frame, a []value) value { fr.i.ps.poolChoice = a[0].(bool); return nil })
 	p("vSched", func(fr *frame, a []value) value { fr.i.sched.enabled = a[0].(bool); return nil })
+	p("vPreemptBound", func(fr *frame, a []value) value {
+		fr.i.sched.preemptBound = int(asInt64(a[0]))
+		return nil
+	})
 	p("vYield", func(fr *frame, a []value) value {
 		i := fr.i
 		i.yield("h:" + fr.primName(a[0]))
@@ -157,6 +161,20 @@ func init() {
 		fr.i.spawn(fr, nil, a[0], nil)
 		return nil
 	})
+	p("vWaitUntil", func(fr *frame, a []value) value {
+		i := fr.i
+		cond := a[0]
+		i.blockUntil(func() bool {
+			r := i.call(fr, token.NoPos, cond, nil, nil)
+			b, ok := r.(bool)
+			if !ok {
+				panic(abort(abUnsupported, "vWaitUntil on a symbolic condition"))
+			}
+			return b
+		}, "vWaitUntil")
+		return nil
+	})
+	p("vThreadID", func(fr *frame, a []value) value { return fr.i.sched.cur.id })
 	p("vJoin", func(fr *frame, a []value) value {
 		i := fr.i
 		i.blockUntil(func() bool {
